@@ -27,6 +27,9 @@ THEOREMS = [
     "OQuPyVerif.Props.C16.usable",
     "OQuPyVerif.Props.C16.file_eq_memory",
     "OQuPyVerif.Props.C16.pttempo_choice",
+    "OQuPyVerif.Props.C16.setters_sound",
+    "OQuPyVerif.Props.C16.meta_set_after_creation",
+    "OQuPyVerif.Props.C16.pttempo_same_metadata",
 ]
 
 
@@ -112,8 +115,10 @@ def dynamics_of(pt, steps=None):
         h = 0.3 * op.sigma("x") + 0.1 * op.sigma("z")
         rho = op.spin_dm("y+")
     else:
-        h = np.diag(np.arange(dim, dtype=float)) * 0.2
-        rho = np.eye(dim, dtype=complex) / dim
+        h = np.diag(np.arange(dim, dtype=float)) * 0.2 + 0.15 * (np.ones((dim, dim)) - np.eye(dim))
+        h = h + 0.1j * (np.triu(np.ones((dim, dim)), 1) - np.tril(np.ones((dim, dim)), -1))
+        rho = np.zeros((dim, dim), dtype=complex)
+        rho[0, 0], rho[1, 1], rho[0, 1], rho[1, 0] = 0.7, 0.3, 0.2j, -0.2j
     dyn = oqupy.compute_dynamics(system=oqupy.System(h), initial_state=rho, process_tensor=pt,
                                  dt=None if pt.dt is not None else 0.1,
                                  num_steps=steps, progress_type="silent")
@@ -212,7 +217,7 @@ def consumers_roundtrip(coupling, steps):
     import oqupy
     from oqupy import operators as op
     from . import oq
-    c = {"z": 0.5 * op.sigma("z"), "x": 0.5 * op.sigma("x")}[coupling]
+    c = coupling_op(coupling)
     pt = oqupy.pt_tempo_compute(bath=oq.cheap_bath(c), start_time=0.0, end_time=steps * 0.1 + 0.01,
                                 parameters=oq.cheap_params(0.1), progress_type="silent")
     ref = other_consumers(pt)
@@ -393,10 +398,11 @@ def correspondence(res, tier, rng):
         finally:
             shutil.rmtree(case["dir"], ignore_errors=True)
 
-    # (e) PT-TEMPO into a file against PT-TEMPO in memory
-    tempo_cases = [("z", 3, None), ("x", 2, "named run")]
+    # (e) PT-TEMPO into a file against PT-TEMPO in memory; couplings with a complex,
+    #     non-involutory diagonalising unitary included
+    tempo_cases = [("z", 3, None), ("y", 2, "named run"), ("h3", 2, None)]
     if tier == "thorough":
-        tempo_cases += [("z", 5, None), ("x", 4, None)]
+        tempo_cases += [("x", 2, None), ("z", 5, None), ("y", 4, None), ("h3", 3, "three levels")]
     for coupling, steps, name in tempo_cases:
         r = pttempo_pair(coupling, steps, name)
         res.count("pttempo:" + coupling)
@@ -404,11 +410,31 @@ def correspondence(res, tier, rng):
             for p in r["problems"]:
                 res.disagree("file-backed PT-TEMPO differs from the in-memory one: " + p,
                              {"coupling": coupling, "steps": steps})
-        add("writer-view mode=overwrite disk=missing %s close=1 %s cmds=%s" % (
-            version_token(), r["meta"], r["cmds"]), r["file_view"],
-            "pttempo-file:%s:%d" % (coupling, steps), "PT-TEMPO file view")
-        add("simple-sets %s cmds=%s" % (r["meta"], r["cmds"]), r["simple_view_of_same_calls"],
+        for kind in ("file", "simple"):
+            add("writer-meta-view type=%s mode=overwrite disk=missing %s %s cmds=%s" % (
+                kind, version_token(), r["meta"], r["cmds"]), r["views"][kind],
+                "pttempo-%s:%s:%d" % (kind, coupling, steps), "PT-TEMPO file, imported as " + kind)
+        add("simple-sets %s cmds=%s" % (r["meta"], r["tensor_cmds"]), r["simple_view_of_same_calls"],
             "pttempo-simple:%s:%d" % (coupling, steps), "same calls on a SimpleProcessTensor")
+
+    # (g) name / description assigned after creation of a file-backed process tensor
+    nmeta = 6 if tier == "quick" else 40
+    for i in range(nmeta):
+        c = meta_case(rng)
+        res.count("meta-assignments", sum(1 for k, _, _ in c["calls"] if k in ("N", "D")))
+        live = "live=%s,%s" % (hexs(c["live"][0]), hexs(c["live"][1]))
+        line = "mode=overwrite disk=missing %s %s cmds=%s" % (version_token(), c["meta"],
+                                                              enc_cmds(c["calls"]))
+        add("writer-meta " + line, "ok %s trace=%s disk=%s" % (live, ",".join(c["trace"]), c["dump"]),
+            "meta:%d" % i, "assignments after creation")
+        for kind in ("file", "simple"):
+            v = c["views"][kind]
+            add("writer-meta-view type=%s %s" % (kind, line),
+                v if not v.startswith("ok ") else "ok " + live + " " + v[3:],
+                "meta-view:%s:%d" % (kind, i), "assignments after creation, imported as " + kind)
+        add("simple-meta %s cmds=%s" % (c["meta"], enc_cmds(c["calls"])),
+            "live=%s,%s" % (hexs(c["twin"][0]), hexs(c["twin"][1])), "meta-simple:%d" % i,
+            "same assignments on a SimpleProcessTensor")
 
     # (f) every consumer on imported real process tensors (the model's claim: imported = original)
     cons_cases = [("z", 3)] if tier == "quick" else [("z", 3), ("x", 3), ("z", 6), ("x", 5)]
@@ -439,29 +465,51 @@ def correspondence(res, tier, rng):
                          {"pt": i, "type": kind, "detail": detail})
 
 
-def pttempo_pair(coupling, steps, name):
-    """real pt_tempo_compute in memory and into a file"""
-    import oqupy
+def coupling_op(coupling):
     from oqupy import operators as op
+    if coupling in ("x", "y", "z"):
+        return 0.5 * op.sigma(coupling)
+    if coupling == "h3":
+        # a fixed complex Hermitian 3-level coupling: its diagonalising unitary is complex and
+        # neither symmetric nor involutory
+        r = random.Random(7)
+        a = np.array([[complex(r.uniform(-1, 1), r.uniform(-1, 1)) for _ in range(3)] for _ in range(3)])
+        return 0.5 * (a + a.conj().T)
+    raise ValueError(coupling)
+
+
+NAME_LATER = "spin boson model"
+DESCR_LATER = "δ: described after the computation"
+
+
+def pttempo_pair(coupling, steps, name):
+    """real pt_tempo_compute in memory and into a file, from ONE Bath object (so both see the
+    same diagonalising unitary); name and description are assigned after the computation, as
+    tests/data/generate_pts.py does"""
+    import oqupy
     from . import oq
-    c = {"z": 0.5 * op.sigma("z"), "x": 0.5 * op.sigma("x")}[coupling]
+    bath = oq.cheap_bath(coupling_op(coupling))
     kw = dict(start_time=0.0, end_time=steps * 0.1 + 0.01, parameters=oq.cheap_params(0.1),
               progress_type="silent", name=name)
     d = tempfile.mkdtemp(prefix="c16tempo_")
     problems = []
     try:
         path = os.path.join(d, "pt.hdf5")
-        mem = oqupy.pt_tempo_compute(bath=oq.cheap_bath(c), **kw)
+        mem = oqupy.pt_tempo_compute(bath=bath, **kw)
         with ApiRecorder() as rec:
-            fpt = oqupy.pt_tempo_compute(bath=oq.cheap_bath(c), process_tensor_file=path,
-                                         overwrite=True, **kw)
-        calls = list(rec.calls)
+            fpt = oqupy.pt_tempo_compute(bath=bath, process_tensor_file=path, overwrite=True, **kw)
+        tensor_calls = list(rec.calls)
         meta = enc_meta(*rec.meta[:6])
+        for obj in (mem, fpt):
+            obj.name = NAME_LATER
+            obj.description = DESCR_LATER
+        calls = tensor_calls + [("N", 0, NAME_LATER), ("D", 0, DESCR_LATER)]
+        live = "live=%s,%s" % (hexs(fpt.name), hexs(fpt.description))
         if not isinstance(fpt, oqupy.FileProcessTensor):
             problems.append("not a FileProcessTensor")
         # The two runs are separate floating-point computations, and the SVDs inside PT-TEMPO fix
         # the gauge of the bond legs only up to signs/phases that vary between runs (two
-        # in-memory runs differ the same way): compare what is gauge invariant.
+        # in-memory runs differ the same way): across runs compare what is gauge invariant.
         if len(mem) != len(fpt):
             problems.append("length %d vs %d" % (len(mem), len(fpt)))
         else:
@@ -472,34 +520,135 @@ def pttempo_pair(coupling, steps, name):
                     problems.append(attr)
             for attr in ("transform_in", "transform_out"):
                 a, b = getattr(mem, attr), getattr(fpt, attr)
-                if (a is None) != (b is None) or (a is not None and (
-                        a.shape != b.shape or np.max(np.abs(a - b)) > 1e-12)):
+                # both are built from the same unitary by the same expressions: exact
+                if (a is None) != (b is None) or (a is not None and not np.array_equal(a, b)):
                     problems.append(attr)
             ok, detail = same_dynamics(mem, fpt)
             if not ok:
                 problems.append("dynamics: " + detail)
-        fpt.close()
-        view, obj = real_import(path, "file")
-        if obj is not None:
-            ok, detail = same_dynamics(mem, obj)
-            if not ok:
-                problems.append("dynamics of the re-imported file: " + detail)
-            _close(obj)
-        # the same calls on a real SimpleProcessTensor
+        # the file run's own tensors in an in-memory object carrying the IN-MEMORY run's metadata:
+        # same raw tensors, so the transformed MPO tensors must agree entry by entry
         m = rec.meta
-        s = oqupy.SimpleProcessTensor(hilbert_space_dimension=m[0], dt=m[1], transform_in=m[2],
-                                      transform_out=m[3], name=m[4], description=m[5])
-        for kind, step, t in calls:
-            if kind == "I":
-                s.set_initial_tensor(t)
-            elif kind == "M":
-                s.set_mpo_tensor(step, t)
-            else:
-                s.set_cap_tensor(step, t)
-        return {"problems": problems, "meta": meta, "cmds": enc_cmds(calls), "file_view": view,
-                "simple_view_of_same_calls": "ok " + simple_view(s, False)}
+        twin = oqupy.SimpleProcessTensor(
+            hilbert_space_dimension=mem.hilbert_space_dimension, dt=mem.dt,
+            transform_in=mem.transform_in, transform_out=mem.transform_out)
+        same_calls = oqupy.SimpleProcessTensor(hilbert_space_dimension=m[0], dt=m[1], transform_in=m[2],
+                                               transform_out=m[3], name=m[4], description=m[5])
+        for kind, step, t in tensor_calls:
+            for s in (twin, same_calls):
+                if kind == "I":
+                    s.set_initial_tensor(t)
+                elif kind == "M":
+                    s.set_mpo_tensor(step, t)
+                else:
+                    s.set_cap_tensor(step, t)
+        for k in range(len(fpt)):
+            a, b = twin.get_mpo_tensor(k), fpt.get_mpo_tensor(k)
+            if a.shape != b.shape or np.max(np.abs(a - b)) > 1e-12:
+                problems.append("transformed mpo tensor %d" % k)
+                break
+        ok, detail = same_dynamics(twin, fpt)
+        if not ok:
+            problems.append("dynamics with the transforms of the in-memory run: " + detail)
+        fpt.close()
+        views = {}
+        for kind in ("file", "simple"):
+            view, obj = real_import(path, kind)
+            views[kind] = view if not view.startswith("ok ") else "ok " + live + " " + view[3:]
+            if obj is not None:
+                ok, detail = same_dynamics(mem, obj)
+                if not ok:
+                    problems.append("dynamics of the file re-imported as %s: %s" % (kind, detail))
+                for attr in ("name", "description"):
+                    if getattr(obj, attr) != getattr(mem, attr):
+                        problems.append("%s of the file re-imported as %s" % (attr, kind))
+                if kind == "file":
+                    _close(obj)
+        return {"problems": problems, "meta": meta, "cmds": enc_cmds(calls),
+                "tensor_cmds": enc_cmds(tensor_calls), "views": views,
+                "simple_view_of_same_calls": "ok " + simple_view(same_calls, False)}
     finally:
         shutil.rmtree(d, ignore_errors=True)
+
+
+LATER_TEXTS = [None, "renamed", "δ later", "two words", ""]
+
+
+def meta_case(rng):
+    """a hand-built file-backed process tensor whose name / description are assigned after
+    creation, between the tensor writes; real code only.  Returns everything observed."""
+    import oqupy
+    spec = gen_pt_spec(rng, length=rng.randrange(1, 4), max_bond=2, with_tr=False)
+    d = tempfile.mkdtemp(prefix="c16meta_")
+    log = []
+    try:
+        path = os.path.join(d, "pt.hdf5")
+        with ApiRecorder() as rec, H5Tracer(log.append):
+            fpt = oqupy.FileProcessTensor(
+                mode="overwrite", filename=path, hilbert_space_dimension=spec["hs"], dt=spec["dt"],
+                name=spec["name"], description=spec["descr"])
+            twin = oqupy.SimpleProcessTensor(hilbert_space_dimension=spec["hs"], dt=spec["dt"],
+                                             name=spec["name"], description=spec["descr"])
+
+            def assign():
+                kind = rng.choice(["N", "D", "D"])
+                text = rng.choice(LATER_TEXTS)
+                for obj in (fpt, twin):
+                    if kind == "N":
+                        obj.name = text
+                    else:
+                        obj.description = text
+                rec.calls.append((kind, 0, text))
+            if rng.random() < 0.5:
+                assign()
+            for k in reversed(range(len(spec["mpos"]))):
+                fpt.set_mpo_tensor(k, tensor_of(spec["mpos"][k]))
+                twin.set_mpo_tensor(k, tensor_of(spec["mpos"][k]))
+                if rng.random() < 0.6:
+                    assign()
+            fpt.compute_caps()
+            assign()
+            live = (fpt.name, fpt.description)
+            fpt.close()
+        calls = list(rec.calls)
+        out = {"spec": spec, "calls": calls, "meta": enc_meta(*rec.meta[:6]), "trace": log,
+               "live": live, "twin": (twin.name, twin.description), "dump": dump_file(path),
+               "imports": {}, "views": {}}
+        for kind in ("file", "simple"):
+            view, obj = real_import(path, kind)
+            out["views"][kind] = view
+            out["imports"][kind] = None if obj is None else (obj.name, obj.description)
+            if obj is not None and kind == "file":
+                _close(obj)
+        return out
+    finally:
+        shutil.rmtree(d, ignore_errors=True)
+
+
+def judge_meta(case):
+    """the text assigned last is what the live object, the in-memory twin and both imports say"""
+    bad = []
+    want = {"name": None, "description": None}
+    for kind, _, text in case["calls"]:
+        if kind == "N":
+            want["name"] = ("__unnamed__" if text is None else text, True)
+        elif kind == "D":
+            want["description"] = ("__no_description__" if text is None else text, True)
+    for i, field in enumerate(("name", "description")):
+        expected = want[field][0] if want[field] else case["twin"][i]
+        for who, got in (("in-memory twin", case["twin"]), ("live file-backed object", case["live"]),
+                         ("import-file", case["imports"]["file"]),
+                         ("import-simple", case["imports"]["simple"])):
+            if got is None or got[i] != expected:
+                bad.append(("%s:%s-set-after-creation-differs" % (who.replace(" ", "-"), field),
+                            {"pt": case["spec"],
+                             "calls": [(k, t) for k, _, t in case["calls"] if k in ("N", "D")],
+                             "field": field, "expected": expected,
+                             "got": None if got is None else got[i],
+                             "how": "FileProcessTensor(mode='overwrite', ...); assignments to "
+                                    ".name/.description between the tensor writes; close(); "
+                                    "import_process_tensor"}))
+    return bad
 
 
 # ---------------------------------------------------------------------------
@@ -603,6 +752,11 @@ def judge_getset(rng, n):
     return bad
 
 
+def _slug(problem):
+    import re
+    return re.sub(r"\s*\d+$", "", problem.split(":")[0]).strip().replace(" ", "-")
+
+
 def search(res, rng=None):
     rng = rng or random.Random(res.seed)
     for key, payload in judge_getset(rng, 50):
@@ -610,11 +764,16 @@ def search(res, rng=None):
     for spec in pt_specs("quick", rng):
         for key, payload in judge_roundtrip(spec):
             res.fail(key, payload)
-    for coupling, steps in (("z", 3), ("x", 2)):
+    for i in range(8):
+        for key, payload in judge_meta(meta_case(rng)):
+            res.fail(key, payload)
+    for coupling, steps in (("z", 3), ("y", 2), ("h3", 2)):
         r = pttempo_pair(coupling, steps, None)
         for p in r["problems"]:
-            res.fail("pttempo-file-vs-memory:" + p.split(":")[0].split(" ")[0],
+            res.fail("pttempo-file-vs-memory:" + _slug(p),
                      {"coupling": coupling, "steps": steps, "problem": p})
+        if coupling == "h3":
+            continue
         problems, _ = consumers_roundtrip(coupling, steps)
         for kind, p in problems:
             res.fail("import-%s:consumer:%s" % (kind, p.split(":")[0]),
